@@ -124,7 +124,9 @@ def check(index, ctx):
     ctx.rule("R2", "every path of forward increments step exactly once by 1, after the schedule test step % update_weights_every == 0; the True branch runs the optimiser (the only writer "
              "of prvs_alpha); statements executed on the reuse path read no mutable state besides step and prvs_alpha")
     ctx.rule("R3", "at every binary operation mixing the weights with the input tensor, the weights have the same kind (torch tensor) on all reaching definitions")
-    cls = index.find_class("torchjd.aggregation.nash_mtl._NashMTLWeighting")
+    from . import _agg as _agg_
+
+    cls = _agg_.weighting_of(index, "NashMTL")
     outer = index.find_class("torchjd.aggregation.nash_mtl.NashMTL")
     if cls is None or outer is None:
         raise AnalysisError("anchor vanished: NashMTL / _NashMTLWeighting")
